@@ -115,8 +115,63 @@ def run_chat(doc: dict) -> dict:
     return res
 
 
+def gen_gate2(rng: random.Random) -> dict:
+    """A cycle with two levels of gating: g2a(count) routes to the gate g2b or END, g2b(count) routes to the body or END, the body
+    increments count. Every trip makes BOTH gates stale; the outcome must be the sequential loop's for every order of the node list."""
+    return {"kind": "gate2", "limit": rng.randint(0, 3), "outer_limit": rng.choice([5, 10]), "open_a": rng.random() < 0.5, "open_b": rng.random() < 0.5, "cfg": gen.gen_async_cfg(rng)}
+
+
+def run_gate2(doc: dict) -> dict:
+    import itertools
+
+    res = empty_result()
+    n = doc["limit"]
+    nodes = [
+        {"kind": "fn", "name": "g2s", "params": [{"name": "g2c"}], "outs": ["g2c"], "beh": "inc", "beh_param": "g2c"},
+        {"kind": "route", "name": "g2a", "params": [{"name": "g2c"}], "targets": ["g2b", "@END"], "default_open": doc["open_a"], "decide": {"op": "lt", "param": "g2c", "value": doc["outer_limit"], "then": "g2b", "else": "@END"}},
+        {"kind": "route", "name": "g2b", "params": [{"name": "g2c"}], "targets": ["g2s", "@END"], "default_open": doc["open_b"], "decide": {"op": "lt", "param": "g2c", "value": n, "then": "g2s", "else": "@END"}},
+    ]
+    viol: list = []
+    rts = []
+    seen: dict = {}
+    try:
+        for order in itertools.permutations(range(3)):
+            g = {"name": "gate2", "nodes": nodes, "order": list(order), "ext": [], "lists": [], "seeds": ["g2c"]}
+            for mode, cfg in (("sync", None), ("async", doc["cfg"])):
+                w = run_world(g, {"g2c": 0}, mode=mode, cfg=cfg, run_kwargs={"max_iterations": 60, "error_handling": "continue"})
+                rts.append(w["rt"])
+                res["runs"] += 1
+                out = w["out"]
+                if out["status"] == "raised" and out["error"] and out["error"][0] in ("GraphConfigError", "ValueError", "MissingInputError"):
+                    res["discard"] = "gate2_template_rejected"
+                    return res
+                body = sum(1 for h in w["rt"].history if h["k"] == "enter" and h["n"] == "g2s")
+                seen[(tuple(order), mode)] = [out["status"], canon(out["values"]), out["error"] and out["error"][0], body]
+        ref = seen[((0, 1, 2), "sync")]
+        # with both gates closed by default the loop is the sequential while-loop: exactly `limit` body executions
+        if not doc["open_a"] and not doc["open_b"] and (ref[0] != "completed" or ref[3] != n):
+            viol.append(("sync[gate2]:body_execution_count_differs_from_sequential_loop", {"got": ref, "expected_body_runs": n}))
+        diff = {f"{k[1]}{list(k[0])}": v for k, v in seen.items() if v != ref}
+        if diff:
+            viol.append(("gate2:outcome_depends_on_node_order_or_runner", {"reference(sync,[0,1,2])": ref, "others": dict(list(diff.items())[:3])}))
+    except BuildError:
+        res["discard"] = "build_error"
+        return res
+    res["violations"] = viol
+    res["nontrivial"] = n >= 2
+    res["stats"]["gate2_template_cases"] = 1
+    res["shape"] = digest(["gate2", n, doc["outer_limit"], doc["open_a"], doc["open_b"]], 8)
+    res["sched"] = digest(canon(doc["cfg"]), 6)
+    res["sig"] = digest([res["shape"], res["sched"]], 8)
+    res["hdigest"] = hist_digest(rts)
+    return res
+
+
 def gen_case(rng: random.Random, tier: str) -> dict:
-    if rng.random() < 0.1:
+    r0 = rng.random()
+    if r0 < 0.08:
+        return gen_gate2(rng)
+    if r0 < 0.18:
         return gen_chat(rng)
     blk = gen.loop_block(rng, "L")
     nested = rng.random() < 0.25
@@ -189,6 +244,8 @@ def _p(blk: dict) -> dict:
 def run_case(doc: dict) -> dict:
     if doc.get("kind") == "chat":
         return run_chat(doc)
+    if doc.get("kind") == "gate2":
+        return run_gate2(doc)
     res = empty_result()
     blk = doc["blk"]
     g = _graph(doc)
@@ -202,6 +259,21 @@ def run_case(doc: dict) -> dict:
             seedvals[f"{blk['prefix']}budget"] = 5
         probe = run_world(g, dict(seedvals, x=1) if doc.get("nested") else dict(seedvals), mode="sync")
         rts.append(probe["rt"])
+        if blk.get("gate_late") and not doc.get("nested") and probe["out"]["status"] == "completed":
+            # the same graph with a graph-level entry point at the node that feeds the gate's late input: everything is downstream of it
+            # (the body only through the gate's control edge), so the run must equal the run without entry-point configuration
+            g_ep = dict(g, entrypoints=[f"{blk['prefix']}plan"])
+            for mode_ep in ("sync", "async"):
+                try:
+                    wep = run_world(g_ep, dict(seedvals), mode=mode_ep, cfg=doc["async"][0] if mode_ep == "async" else None)
+                except BuildError:
+                    break
+                rts.append(wep["rt"])
+                res["runs"] += 1
+                res["stats"]["probe_graph_level_entry_point_upstream_of_the_gate"] = 1
+                a_, b_ = [probe["out"]["status"], canon(probe["out"]["values"]), count_invocations(probe["rt"], blk)], [wep["out"]["status"], canon(wep["out"]["values"]), count_invocations(wep["rt"], blk)]
+                if a_ != b_ and not (wep["out"]["status"] == "raised" and wep["out"]["error"] and wep["out"]["error"][0] in ("MissingInputError", "ValueError", "GraphConfigError")):
+                    viol.append((f"{mode_ep}[with_entrypoint(plan)]:run_differs_from_unscoped_run", {"unscoped": a_, "scoped": b_, "error": wep["out"]["error"], "blk": _p(blk)}))
         if doc.get("nested"):
             entries = [(None, 0, dict(seedvals, x=1))]
         else:
@@ -285,6 +357,10 @@ def run_case(doc: dict) -> dict:
 def shrink_candidates(doc: dict):
     import random as _r
 
+    if doc.get("kind") == "gate2":
+        if doc["limit"] > 1:
+            yield dict(doc, limit=doc["limit"] - 1)
+        return
     if doc.get("kind") == "chat":
         if doc["limit"] > 1:
             c = copy.deepcopy(doc)
@@ -341,6 +417,8 @@ def signature(doc: dict, cls: str, detail) -> str:
 
 
 def sample_repr(doc: dict, res: dict):
+    if doc.get("kind") == "gate2":
+        return {"template": "two-level gated cycle, all 6 node orders x both runners", "limit": doc["limit"], "open": [doc["open_a"], doc["open_b"]]}
     if doc.get("kind") == "chat":
         return {"template": "chat loop: two ungated accumulators of one value, tick, gate cont", "limit": doc["limit"], "node_order": doc["order"]}
     return {"template": _p(doc["blk"]), "nested_in_dag": doc.get("nested"), "node_order": doc["order"], "entries": "every body entry point listed by graph.inputs.entrypoints", "max_iterations": "0..S+1",
